@@ -18,6 +18,7 @@ purity:  cannot be a theorem about a functional model; decided here by deep snap
 """
 from __future__ import annotations
 
+import asyncio
 import copy
 import json
 import logging
@@ -427,6 +428,7 @@ class Impl:
             out["index"] = out["leaves"] = None   # internal representation changed: not compared
         inputs = {"inputs": celpy.json_to_cel(case["inputs"])}
         base = celpy.json_to_cel(case["base"])
+        apply_shares(base, case.get("share"))
         before, keep = snapshot(inputs, base, ov)
         results = []
         for _ in range(2):
@@ -573,6 +575,29 @@ class Impl:
             if not isinstance(fn, ResourceFunction):
                 out["error"] = f"prepare ResourceFunction: {getattr(fn, 'message', fn)!r}"
                 return
+            # dependency updates: each referenced ValueFunction gets a new resourceVersion; the cache's monitor
+            # task re-prepares the ResourceFunction from its stored spec when the loop turns
+            observed = 0
+            for k in range(int(prog.get("reprepare") or 0)):
+                previous = cache.get_resource_from_cache(resource_class=ResourceFunction, cache_key="rf")
+                for name, vf in prog["vfs"].items():
+                    await ku.offer_value_function(name, {kk: copy.deepcopy(v) for kk, v in vf.items() if v is not None},
+                                                  version=str(k + 2))
+                for _ in range(60):
+                    await asyncio.sleep(0)
+                    if cache.get_resource_from_cache(resource_class=ResourceFunction, cache_key="rf") is not previous:
+                        break
+                for _ in range(10):
+                    await asyncio.sleep(0)
+                if cache.get_resource_from_cache(resource_class=ResourceFunction, cache_key="rf") is not previous:
+                    observed += 1
+            out["reprepared"] = observed
+            if prog.get("reprepare"):
+                fn = cache.get_resource_from_cache(resource_class=ResourceFunction, cache_key="rf")
+                if not isinstance(fn, ResourceFunction):
+                    out["error"] = f"re-prepared ResourceFunction: {getattr(fn, 'message', fn)!r}"
+                    return
+                vfs = [cache.get_resource_from_cache(resource_class=ValueFunction, cache_key=n) for n in prog["vfs"]]
             if not isinstance(fn.crud_config.overlays, (list, tuple)):
                 out["error"] = f"overlays not prepared: {getattr(fn.crud_config.overlays, 'message', '')!r}"
                 return
@@ -630,6 +655,40 @@ class Impl:
         except Exception as e:
             out["error"] = f"raised {type(e).__name__}: {str(e)[:200]}"
         return out
+
+
+def _at(doc, path):
+    cur = doc
+    for k in path:
+        cur = cur[k]
+    return cur
+
+
+def apply_shares(base, shares):
+    """make the very same container object sit at two paths of the base (what celpy yields when one
+    expression value is used twice); the document's *value* is unchanged — both paths already hold
+    equal values"""
+    from celpy import celtypes
+
+    K = celtypes.StringType
+    for src, dst in shares or []:
+        try:
+            obj = base
+            for k in src:
+                obj = obj[K(k)]
+            parent = base
+            for k in dst[:-1]:
+                parent = parent[K(k)]
+            if (isinstance(obj, dict) and isinstance(parent, dict) and K(dst[-1]) in parent
+                    and canon_unordered_cel(parent[K(dst[-1])]) == canon_unordered_cel(obj)):
+                parent[K(dst[-1])] = obj
+        except (KeyError, TypeError, IndexError):
+            pass       # (a shrunk case) the path is gone: nothing to share
+
+
+def canon_unordered_cel(v):
+    import koreo_util as ku
+    return canon_unordered(ku.plain(v))
 
 
 def index_abs(ix):
@@ -710,8 +769,50 @@ def gen_unit(r):
     depth = r.choice([1, 2, 2, 3, 3, 4, 5, 6])
     base = gen_doc(r, r.choice([0, 1, 2, 3, 4, 5]))
     paths = input_paths(inputs) + [["resource", k] for k in base if k.isidentifier()]
-    spec = gen_overlay(r, depth, Ctx(paths, FEXPR_INPUTS + FEXPR_RESOURCE), base)
-    return {"base": base, "spec": spec, "inputs": inputs}
+    ctx = Ctx(paths, FEXPR_INPUTS + FEXPR_RESOURCE)
+    spec = gen_overlay(r, depth, ctx, base)
+    case = {"base": base, "spec": spec, "inputs": inputs}
+    if r.random() < 0.3:
+        add_share(r, case, ctx)
+    return case
+
+
+def _nest(path, leaf):
+    d = leaf
+    for k in reversed(path):
+        d = {k: d}
+    return d
+
+
+def _graft(spec, path, node):
+    """write `node` (a non-empty map) into the written overlay at `path`, through written maps only"""
+    cur = spec
+    for i, k in enumerate(path):
+        if not (isinstance(cur.get(k), dict) and cur[k]):
+            cur[k] = _nest(path[i + 1:], node)
+            return
+        cur = cur[k]
+    cur.update(node)
+
+
+def add_share(r, case, ctx):
+    """the same map object at two paths of the base, and an overlay that merges into ONE of them"""
+    base = case["base"]
+    srcs = [list(p) for p in _paths(base) if isinstance(_at(base, p), dict) and _at(base, p)]
+    if not srcs:
+        base["spec"] = {"selector": {"matchLabels": {"app": "x", "tier": {"k": 1}}}}
+        srcs = [["spec", "selector", "matchLabels"]]
+    src = r.choice(srcs)
+    parents = [[]] + [list(p) for p in _paths(base) if isinstance(_at(base, p), dict)]
+    parents = [p for p in parents if p[:len(src)] != src]      # not inside the shared map itself
+    parent = r.choice(parents)
+    key = "twin"
+    _at(base, parent)[key] = copy.deepcopy(_at(base, src))
+    dst = parent + [key]
+    case["share"] = [[src, dst]]
+    if r.random() < 0.7:
+        into = r.choice([src, dst])
+        _graft(case["spec"], into, {r.choice(["added", "a", "b"]): gen_leaf(r, ctx)})
 
 
 def gen_fn_probe(r):
@@ -832,6 +933,15 @@ def gen_program(r):
             prog["identity_template"] = True
             if r.random() < 0.7:
                 prog["owned"], prog["mode"] = True, "create"
+    twin = None
+    if r.random() < 0.3:
+        # one map-valued expression used twice: celpy hands out the very same object at both paths
+        e = r.choice(["=inputs.m", "=inputs.deep", "=inputs.m2", "=inputs.obj"])
+        if prog["template"]["kind"] == "inline" and r.random() < 0.6:
+            doc["spec"] = {"selector": {"matchLabels": e}, "template": {"metadata": {"labels": e}}, "replicas": 1}
+            twin = ("template", [["spec", "selector", "matchLabels"], ["spec", "template", "metadata", "labels"]])
+        else:
+            twin = ("overlay", [["data", "primary"], ["data", "replica"]], e)
     if isinstance(doc.get("metadata"), dict):
         doc["metadata"].pop("ownerReferences", None)
     doc["zz-marker"] = "m"        # never in the live object: the patch path always has something to send
@@ -842,6 +952,10 @@ def gen_program(r):
     n_steps = r.choice([0, 1, 1, 2, 2, 3, 4])
     if prog.get("identity_template") and r.random() < 0.5:
         n_steps = 0
+    if twin and twin[0] == "overlay":
+        st = {"kind": "inline", "skipIf": None, "overlay": {"data": {"primary": twin[2], "replica": twin[2]}}}
+        prog["overlays"].append(st)
+        cur = ref_merge(cur, st["overlay"], ref_overlay_env(env, cur))
     bad_skip_at = r.randrange(n_steps) if n_steps and r.random() < 0.15 else None
     for i in range(n_steps):
         skip = r.choice([None, None, "=inputs.t", "=inputs.ff", "=inputs.b"])
@@ -885,6 +999,28 @@ def gen_program(r):
                 prog["overlays"].pop()
                 if new_vf:
                     prog["vfs"].pop(new_vf, None)
+    if twin and r.random() < 0.85:
+        # a later overlay (inline or ValueFunction return) deep-merges into ONE of the two paths only
+        into = r.choice(twin[1])
+        ov = _nest(into, {r.choice(["added", "a", "b"]): gen_leaf(r, ctx)})
+        if r.random() < 0.6:
+            st = {"kind": "inline", "skipIf": r.choice([None, None, "=inputs.ff"]), "overlay": ov}
+        else:
+            prog["vfs"]["vftwin"] = {"locals": None, "return": _nest(into, {"added": gen_scalar(r), "seen": "=resource.kind"})}
+            st = {"kind": "vf", "skipIf": None, "ref": "vftwin", "inputs": None}
+        prog["overlays"].append(st)
+        prog["twin"] = True
+        try:
+            if st["kind"] == "inline":
+                cur = ref_merge(cur, st["overlay"], ref_overlay_env(env, cur))
+            else:
+                cur = ref_vf(prog["vfs"]["vftwin"], None, cur)
+        except BadCase:
+            prog["overlays"].pop()
+            prog["vfs"].pop("vftwin", None)
+    # the function is fetched from the cache after its overlayRef dependencies were updated n times
+    if prog["vfs"]:
+        prog["reprepare"] = r.choice([0, 0, 1, 2, 2, 3])
     if prog["mode"] == "create" and r.random() < 0.3 and not (prog.get("identity_template") and not prog["overlays"]):
         cur2 = ref_deep_overlay(cur, forced) if prog["overlays"] else cur
         res_paths = [["resource", k] for k in cur2 if k.isidentifier()]
@@ -1127,6 +1263,10 @@ def shrink_program(prog, impl):
         p["create"] = None
     if p.get("owned") and bad({**p, "owned": False}):
         p["owned"] = False
+    for n in (0, 1, 2):
+        if (p.get("reprepare") or 0) > n and bad({**p, "reprepare": n}):
+            p["reprepare"] = n
+            break
     p["vfs"] = {k: v for k, v in p["vfs"].items() if any(s.get("ref") == k for s in p["overlays"])}
     for i, st in enumerate(p["overlays"]):
         if st["kind"] == "inline":
@@ -1374,6 +1514,10 @@ def explore(ck, impl, drv, n_unit, n_vf, n_prog, n_ov, salt="", model=True):
             ck.count("program-create-overlay")
         if prog["owned"]:
             ck.count("program-owned")
+        if prog.get("twin"):
+            ck.count("program-one-expression-at-two-paths-then-merge-into-one")
+        if prog.get("reprepare"):
+            ck.count(f"program-reprepare:{prog['reprepare']}:observed={got.get('reprepared')}")
         if prog.get("identity_template"):
             ck.count("program-template-already-carries-identity" + (":owned-created-as-is" if prog["owned"] and not prog["overlays"] and prog["mode"] == "create" else ""))
         env = {"inputs": prog["inputs"]}
